@@ -17,9 +17,9 @@ Ties, re-run by every check:
 The oracle is written from the property text over the function's (start, end) timestamps per
 (uid, handler id), the object versions the operator processed, and the observed patch round trips;
 it never consults the model. Clauses: O1 overlap, O2-O4 interval / sharp grid / error delay (not earlier; not later
-unless within idle after an ESSENTIAL change the operator had seen: open finding C10-F3 otherwise), O5 initial delay,
+unless within idle after an ESSENTIAL change the operator had seen: the fixed finding C10-F3 otherwise), O5 initial delay,
 O6 idle, O7 failed for good / one-shot is the last, O8 the post-run patch takes no longer than its API requests,
-O9 the task never ends by an exception (an API error in the post-run patch: open finding C10-F4), O10 the schedule
+O9 the task never ends by an exception (an API error in the post-run patch: the fixed finding C10-F4), O10 the schedule
 goes on: the run that is due after the last observed one of a task nobody stopped does start.
 
 Local harness features (not in harness/sim): a worker of its own (`python -m harness.props.c10 --worker`)
@@ -47,19 +47,24 @@ from ..core import Ctx, ExtractError, load_corpus
 
 ID = "C10"
 LEVEL = "proof"
-STRENGTH = "partial"   # "unless idling postpones it" is exact only under the guard `Settled` (open finding C10-F3: non-essential events reset idling); the schedule's continuation is not a theorem and is false after an API error in the post-run patch (open finding C10-F4)
+STRENGTH = "full"   # every clause has an unguarded theorem since 14876bf (C10-F3) and b8b3089 (C10-F4); that the schedule goes on is the oracle's (Sched is prefix-closed: the stopper truncates)
 ENGINES = ["lean-model", "pyextract", "kopfsim"]
 LEVEL_TEXT = (
-    "PARTIAL since the white-box review: the safety clauses (no overlap, not earlier than interval / grid / error delay / initial "
-    "delay, no run within idle after an essential change) have unguarded theorems (the former gaps C10-F1 and C10-F2 are repaired "
-    "in /repo, their witnesses are regressions). 'Unless idling postpones it' is NOT exact in the code: idling is reset by every "
-    "event of an object that differs from what is stored as last handled, and by every event at all when nothing is stored "
-    "(timer-only operators) — the timer's own result patch postpones its next run / re-triggers an idle-only timer (open finding "
-    "C10-F3: essential_resets, reset_iff_essential_partial + nonessential_reset_witness, interval_exact_when_settled_partial + "
-    "interval_postponed_by_own_patch_witness; the oracle allows a postponement only within idle after an ESSENTIAL change). That "
-    "the schedule goes on is an oracle clause (next-run-missing), not a theorem (Sched is prefix-closed); it is false when the "
-    "post-run patch raises an API error: the task ends and _runner records the handler as stopped for ever (open finding C10-F4: "
-    "Exit/foreverAfter, raised_is_never_respawned_witness, runner_marks_eq ties _runner's finally). "
+    "FULL: every clause has an unguarded theorem. The former gaps C10-F1 .. C10-F4 are repaired in /repo (201494d, f6dee42, "
+    "14876bf, b8b3089); their witnesses are regressions of the corpus and the old behaviours are named variants of the model with "
+    "regression theorems. 'Unless idling postpones it' is exact: an event resets idling IFF it is an essential change "
+    "(reset_iff_essential, UNGUARDED: the essence differs from the previously processed event's, or — on the first event of a memory — "
+    "from the last-handled one / nothing is stored); same_essence_never_resets (the timer's own result patches, whatever is stored as "
+    "last handled); view_is_created_or_essential + postponed_only_by_essential (for EVERY event history, idle_reset_time is the memory's "
+    "creation time or a stamp of an essential change: a run is on time or exactly idle after such an instant); "
+    "interval_exact_unless_changed (no change after e0 => start = max(patched+interval, e0.t+idle), no guard on last-handled any more); "
+    "regressions nonessential_reset_regression, interval_postponed_by_own_patch_regression (variant resetCondLastHandled). "
+    "A failed post-run patch (API error beyond the request's retries) does not end the task: failed_patch_keeps_timer (the loop goes on, "
+    "the whole undelivered patch is carried), failed_patch_keeps_schedule (the run sequences are exactly Sched, so every law holds for the "
+    "iteration after a failed patch with patched = the instant the patch gave up); regression raised_is_never_respawned_regression "
+    "(variant OnPatchError.propagate: the raising iteration was the last, _runner's finally recorded the handler as stopped for ever; "
+    "runner_marks_eq still ties that finally). That the schedule goes on at all is an oracle clause (next-run-missing, crashed), not a "
+    "theorem: Sched is prefix-closed because the stopper may truncate it anywhere. "
     "Lean theorems about a state-carrying model of the _timer loop (the in-memory handler state "
     "incl. the series' `started` is carried from iteration to iteration; whether an iteration invokes the function is derived "
     "from it), for ALL configurations (interval/sharp/idle/initial_delay present or absent, backoff, errors mode, retries, "
@@ -77,31 +82,37 @@ LEVEL_TEXT = (
     "is not a change) and idle_law_recv (UNGUARDED: no run within idle after the instant an essential change is DETECTED, "
     "before any on.event handler of the cycle runs: idle_reset_time is stamped there and again in process_spawning_cause). "
     "The model is hand-written; its branch chain, state-reset condition, idle-reset condition "
-    "(processing._detect_causes) and the two stamp sites of idle_reset_time, loop conditions, sleep arithmetic and statement skeleton are re-extracted from the AST on "
+    "(processing._detect_causes) and the two stamp sites of idle_reset_time, loop conditions, sleep arithmetic, the guard of the post-run "
+    "patch (try / except CancelledError: raise / except Exception: remaining_patch = patch) and statement skeleton are re-extracted from the AST on "
     "every run and proved equal (T); every loop iteration of seeded closed-loop simulations is compared with it (S): "
-    "invocation / pre-check decision, retry kwarg, state after the run incl. started, next start (tick-exact), carried state "
-    "at the next iteration, the real cause.reset of every event and every read of idle_reset_time against the derived view. "
+    "invocation / pre-check decision, retry kwarg, state after the run incl. started, next start (tick-exact, also after a failed patch), carried state "
+    "at the next iteration, what the post-run patch leaves in cause.patch for the next iteration (everything after a failure, only what "
+    "was handed back otherwise), the real cause.reset of every event and every read of idle_reset_time against the derived view. "
     "execute_handler_once's timeout/retries checks are mirrored by hand (S-tied; C11 owns their grid). Assumes interval > 0.")
-TIE = ("T: post-run branch chain + state-reset condition + idle-reset condition of _detect_causes + idle-gate/poll expressions + stopper guards + statement skeleton of "
+TIE = ("T: post-run branch chain + state-reset condition + idle-reset condition of _detect_causes + idle-gate/poll expressions + stopper guards + guard of the post-run patch + statement skeleton of "
        "daemons._timer re-extracted and proved equal to the model; S: per loop iteration of closed-loop simulations: invocation "
-       "decision, carried state, exact tick equality of the next start; per event the reset decision; per read the derived view")
+       "decision, carried state, exact tick equality of the next start, the patch carried over a failed delivery; per event the reset decision; per read the derived view")
 THEOREMS = [("Kopf.Props.C10", "Kopf.C10." + n) for n in [
     "no_overlap_step", "no_overlap", "invoked_unless_failed", "failed_is_last", "failed_run_marks_state",
     "success_marks_state", "interval_law_step", "interval_law", "sharp_grid_step", "sharp_grid", "error_delay_step",
     "error_delay_law", "initial_delay_law", "idle_law", "idle_law_full", "idle_law_recv",
     "idle_only_law", "one_shot",
     "invoked_unless_failed_no_timeout", "timeout_ends_series", "first_attempt_not_timed_out",
-    "essential_resets", "reset_iff_essential_partial", "nonessential_reset_witness", "interval_exact_when_settled_partial",
-    "interval_postponed_by_own_patch_witness", "stopped_stays_respawnable", "raised_is_never_respawned_witness"]]
+    "essential_resets", "reset_iff_essential", "same_essence_never_resets", "nonessential_reset_regression",
+    "view_is_created_or_essential", "postponed_only_by_essential", "interval_exact_unless_changed",
+    "interval_postponed_by_own_patch_regression", "stopped_stays_respawnable", "failed_patch_keeps_timer",
+    "failed_patch_keeps_schedule", "raised_is_never_respawned_regression"]]
 TIE_THEOREMS = [("Kopf.Tie.C10", "Kopf.C10.Tie." + n) for n in [
-    "post_eq", "reset_top_eq", "at_top_eq", "restart_clock_eq", "at_start_eq", "forever_stopped_eq", "runner_marks_eq", "reset_cond_eq", "resets_idle_eq", "stamp_sites_eq", "idle_cond_eq", "idle_delay_eq", "poll_cond_eq", "poll_delay_eq", "shape_eq", "stopper_guards_eq", "idle_step_eq", "poll_step_eq"]]
+    "post_eq", "reset_top_eq", "at_top_eq", "restart_clock_eq", "at_start_eq", "forever_stopped_eq", "runner_marks_eq", "on_patch_error_eq", "reset_cond_eq", "resets_idle_eq", "stamp_sites_eq", "idle_cond_eq", "idle_delay_eq", "poll_cond_eq", "poll_delay_eq", "shape_eq", "stopper_guards_eq", "idle_step_eq", "poll_step_eq"]]
 RULE = ("seeded scenarios: 1-2 timers on 1-2 objects, all 16 presence combinations of interval/sharp/idle/initial_delay "
         "(stratified), scripted results ok/ok+result/ok+patch/temporary(delay)/arbitrary/permanent with function durations "
         "0, <, =-1tick, =, =+1tick, > the interval (1.5x, 2x, 2.5x), backoff/retries/errors/timeout options (timeout below, at, above "
         "idle and interval), optional slow @kopf.on.event handler (the event is processed later than received), optional update handler "
         "(so that status patches are / are not idle resets), status subresource (2 PATCH round trips), object edits at random "
-        "dyadic times, label toggles (respawn) and operator restarts for timers with an interval, backoff 0, 12 % with HTTP 500/503 "
-        "injected 1-9 times into the PATCH that delivers a timer's result (retried by the client within the request; 4+ exhaust it); a second pass replays a "
+        "dyadic times, label toggles (respawn) and operator restarts for timers with an interval, backoff 0, 12 % with API errors in the PATCHes "
+        "that deliver a timer's result: HTTP 500/503 injected 1-9 times into one of them (retried by the client within the request; 4+ exhaust "
+        "it), or an outage from some instant on (500/503/connection lost before or after the server applied it/403/422, 1-40 requests: the "
+        "undelivered patch is carried from run to run); a second pass replays a "
         "third of the scenarios with one extra edit placed exactly at an observed start, at start - idle, and 1 tick either "
         "side; one case = one loop iteration (or spawn -> first iteration), one processed event (reset decision) or one timer "
         "task's reads of idle_reset_time (derived view); distinct & non-trivial = distinct abstracted (option presence, carried "
@@ -115,9 +126,10 @@ ASSUMPTIONS = ["interval > 0 and idle > 0 where present (interval = 0 divides by
                "the cycle: the two coincide unless `@kopf.index` handlers or the start-up index wait take time (no index "
                "handlers are generated)",
                "the stopper is not modelled: it only truncates a run sequence (every loop condition carries it: stopper_guards_eq)",
-               "an exception out of the post-run patch truncates the sequence too (Exit.raised; open finding C10-F4): the oracle reports "
-               "it, the step tie treats it as the end of the task; API errors are injected into the timers' result patches only, not into "
-               "the requests of the object's processing cycle (an error there throttles the worker: C12's subject)",
+               "an exception out of the post-run patch does not end the task (b8b3089; the guard is translator-tied): the instant the patch "
+               "gave up is the iteration's `patched`; API errors are injected into the timers' result patches only, not into "
+               "the requests of the object's processing cycle (an error there throttles the worker: C12's subject); whether the carried "
+               "patch is delivered later, and what a repeated delivery overwrites, is C08's subject",
                "the oracle's bound on the duration of the post-run patch (its API requests x 1/64 s) is checked in scenarios without "
                "injected faults only",
                "initial_delay is a number (callables are evaluated by the same line of code)"]
@@ -251,9 +263,16 @@ def _call_text(st: ast.stmt) -> str:
     return pyextract.norm(v.func) if isinstance(v, ast.Call) else ""
 
 
-RESET_VOCAB = {
+# `seen` is defaulted to `new` before the condition (the shape before 14876bf): it is never None there
+RESET_VOCAB_DEFAULTED = {
     "bool(diff)": "a.diffLastHandled",
     "bool(diffs.diff(seen, new))": "a.diffSeen",
+}
+# no defaulting (since 14876bf): `diffs.diff(None, new)` is not empty — the expression must say what the first sight is
+RESET_VOCAB = {
+    "bool(diff)": "a.diffLastHandled",
+    "seen is None": "a.seenIsNone",
+    "bool(diffs.diff(seen, new))": "(a.seenIsNone || a.diffSeen)",
 }
 
 
@@ -262,9 +281,28 @@ def _extract_reset(ctx: Ctx) -> tuple[str, list[str]]:
     essence it reads, and `process_spawning_cause`'s write of idle_reset_time under `cause.reset`."""
     tree = pyextract.parse_file(ctx.repo / "kopf/_core/reactor/processing.py")
     fn = pyextract.find_def(tree, "_detect_causes")
-    texts = [pyextract.norm(st) for st in pyextract.body_without_docstring(fn)]
-    want = ["diff = diffs.diff(old, new)", "seen = memory.daemons_memory.last_seen_essence",
-            "seen = new if seen is None else seen", "memory.daemons_memory.last_seen_essence = new"]
+    stmts = pyextract.body_without_docstring(fn)
+    texts = [pyextract.norm(st) for st in stmts]
+    calls = [n for n in ast.walk(fn) if isinstance(n, ast.Call) and pyextract.norm(n.func) == "causes.detect_spawning_cause"]
+    if len(calls) != 1:
+        raise ExtractError("_detect_causes: detect_spawning_cause call not found")
+    kws = {k.arg: k.value for k in calls[0].keywords}
+    if "reset" not in kws:
+        raise ExtractError("_detect_causes: the spawning cause gets no `reset=`")
+    # the condition may be bound to ONE local name first (`essentially_changed = …; reset=essentially_changed`)
+    locals_: dict[str, ast.expr] = {}
+    local_text = None
+    if isinstance(kws["reset"], ast.Name):
+        binds = [st for st in stmts if isinstance(st, ast.Assign) and len(st.targets) == 1 and isinstance(st.targets[0], ast.Name)
+                 and st.targets[0].id == kws["reset"].id]
+        if len(binds) != 1:
+            raise ExtractError(f"_detect_causes: `reset={kws['reset'].id}` is not bound exactly once")
+        locals_[kws["reset"].id] = binds[0].value
+        local_text = pyextract.norm(binds[0])
+    defaulting = "seen = new if seen is None else seen"
+    want = ["diff = diffs.diff(old, new)", "seen = memory.daemons_memory.last_seen_essence"] \
+        + ([defaulting] if defaulting in texts else []) + ([local_text] if local_text else []) \
+        + ["memory.daemons_memory.last_seen_essence = new"]
     pos = []
     for w in want:
         if texts.count(w) != 1:
@@ -275,15 +313,11 @@ def _extract_reset(ctx: Ctx) -> tuple[str, list[str]]:
     for n in ast.walk(fn):
         if isinstance(n, (ast.Assign, ast.AugAssign, ast.AnnAssign)):
             t = pyextract.norm(n)
-            if ("last_seen_essence" in t or t.startswith(("seen =", "diff =", "new =", "old ="))) and t not in want and not t.startswith(("new = settings", "old = settings")):
+            if ("last_seen_essence" in t or t.startswith(("seen =", "diff =", "new =", "old =")) or (local_text and t.startswith(local_text.split("=")[0] + "="))) \
+                    and t not in want and not t.startswith(("new = settings", "old = settings")):
                 raise ExtractError(f"_detect_causes: unexpected assignment `{t[:120]}`")
-    calls = [n for n in ast.walk(fn) if isinstance(n, ast.Call) and pyextract.norm(n.func) == "causes.detect_spawning_cause"]
-    if len(calls) != 1:
-        raise ExtractError("_detect_causes: detect_spawning_cause call not found")
-    kws = {k.arg: k.value for k in calls[0].keywords}
-    if "reset" not in kws:
-        raise ExtractError("_detect_causes: the spawning cause gets no `reset=`")
-    cond = pyextract.BoolTranslator(RESET_VOCAB).tr(kws["reset"])
+    vocab = RESET_VOCAB_DEFAULTED if defaulting in texts else RESET_VOCAB
+    cond = pyextract.BoolTranslator(vocab, locals_).tr(kws["reset"])
     stamp = "memory.daemons_memory.idle_reset_time = asyncio.get_running_loop().time()"
     psc = pyextract.find_def(tree, "process_spawning_cause")
     ok = [st for st in psc.body if isinstance(st, ast.If) and pyextract.norm(st.test) == "cause.reset" and not st.orelse
@@ -328,6 +362,33 @@ def _extract_runner(tree: ast.Module) -> str:
     return pyextract.BoolTranslator(RUNNER_VOCAB).tr(marks[0].test)
 
 
+def _is_patch_call(st: ast.stmt) -> bool:
+    """`_, remaining_patch = await application.patch_and_check(...)`"""
+    return isinstance(st, ast.Assign) and _call_text(st) == "application.patch_and_check" and len(st.targets) == 1 \
+        and pyextract.norm(st.targets[0]) in ("(_, remaining_patch)", "_, remaining_patch")
+
+
+def _guarded_patch(st: ast.stmt) -> bool:
+    """b8b3089: `try: <the patch call>  except asyncio.CancelledError: raise  except Exception [as e]: [logger.…(…)]
+    remaining_patch = patch` — nothing else: the cancellation passes, every other exception keeps the WHOLE patch and falls
+    through to the statement after the `try` (no return/break/continue/raise, no other assignment)."""
+    if not isinstance(st, ast.Try) or st.orelse or st.finalbody or len(st.body) != 1 or not _is_patch_call(st.body[0]):
+        return False
+    if len(st.handlers) != 2:
+        raise ExtractError("_timer: the guard of the post-run patch has other handlers than CancelledError / Exception")
+    h0, h1 = st.handlers
+    if h0.type is None or pyextract.norm(h0.type) != "asyncio.CancelledError" or len(h0.body) != 1 \
+            or not (isinstance(h0.body[0], ast.Raise) and h0.body[0].exc is None):
+        raise ExtractError("_timer: the cancellation is not re-raised first by the guard of the post-run patch")
+    if h1.type is None or pyextract.norm(h1.type) != "Exception":
+        raise ExtractError(f"_timer: the guard of the post-run patch catches `{pyextract.norm(h1.type) if h1.type else 'everything'}`")
+    rest = [b for b in h1.body if not (isinstance(b, ast.Expr) and isinstance(b.value, ast.Call)
+                                       and pyextract.norm(b.value.func).startswith("logger."))]
+    if [pyextract.norm(b) for b in rest] != ["remaining_patch = patch"]:
+        raise ExtractError("_timer: on an error of the post-run patch something else than `remaining_patch = patch` is done")
+    return True
+
+
 def extract(ctx: Ctx) -> None:
     reset_cond, stamp_sites = _extract_reset(ctx)
     tree = pyextract.parse_file(ctx.repo / "kopf/_core/engines/daemons.py")
@@ -363,7 +424,7 @@ def extract(ctx: Ctx) -> None:
     if loop is None:
         raise ExtractError("_timer: the main loop is gone")
     steps: list[str] = []
-    idle_cond = idle_delay = post_body = reset_top = restart_clock = forever = None
+    idle_cond = idle_delay = post_body = reset_top = restart_clock = forever = on_patch_error = None
     for st in loop.body:
         text = pyextract.norm(st)
         if text == "await asyncio.sleep(0)" and not steps:
@@ -409,8 +470,12 @@ def extract(ctx: Ctx) -> None:
             steps.append("Step.withOutcomes")
         elif text == "progression.deliver_results(outcomes=outcomes, patch=patch)":
             steps.append("Step.deliver")
-        elif isinstance(st, ast.Assign) and _call_text(st) == "application.patch_and_check":
+        elif _is_patch_call(st) and on_patch_error is None:
             steps.append("Step.patch")
+            on_patch_error = "OnPatchError.propagate"       # unguarded: an exception leaves `_timer`
+        elif isinstance(st, ast.Try) and on_patch_error is None and _guarded_patch(st):
+            steps.append("Step.patch")
+            on_patch_error = "OnPatchError.keepPatch"
         elif text == "patch = cause.patch = patches.Patch(remaining_patch, body=body)":
             steps.append("Step.rebindPatch")
         elif isinstance(st, ast.If) and pyextract.norm(st.test) == "not state.done":
@@ -420,8 +485,9 @@ def extract(ctx: Ctx) -> None:
             steps.append("Step.post")
         else:
             raise ExtractError(f"_timer loop: statement outside the skeleton: `{text[:160]}`")
-    if idle_cond is None or idle_delay is None or post_body is None or reset_top is None or restart_clock is None or forever is None:
-        raise ExtractError("_timer loop: state reset, idle gate or post-run chain not found")
+    if idle_cond is None or idle_delay is None or post_body is None or reset_top is None or restart_clock is None or forever is None \
+            or on_patch_error is None:
+        raise ExtractError("_timer loop: state reset, idle gate, post-run patch or post-run chain not found")
     # the poll loop's condition/sleep are inside the chain; extract them separately for their own tie
     poll = [n for n in ast.walk(loop) if isinstance(n, ast.While) and _poll_test(n.test) is not None]
     if len(poll) != 1:
@@ -443,6 +509,8 @@ def extract(ctx: Ctx) -> None:
     out += f"def marksForeverStopped (a : TopAtoms) : Bool := {forever}\n\n"
     out += "/-- daemons._runner, `finally:` the ended task's handler is never spawned again -/\n"
     out += f"def runnerMarksForever (a : RunnerAtoms) : Bool := {runner_marks}\n\n"
+    out += "/-- what an exception out of the post-run patch does -/\n"
+    out += f"def onPatchError : OnPatchError := {on_patch_error}\n\n"
     out += "/-- processing._detect_causes: the event resets idling -/\n"
     out += f"def resetCond (a : ResetAtoms) : Bool := {reset_cond}\n\n"
     out += f"def stampSites : List StampSite := [{', '.join(stamp_sites)}]\n\n"
@@ -552,6 +620,10 @@ class Probe:
                                   "state": {"started": (st.started - _sl.EPOCH).total_seconds() - off,
                                             "retries": int(st.retries or 0), "success": bool(st.success), "failure": bool(st.failure),
                                             "delayed": dl}}
+            try:    # what `cause.patch` carries into this iteration, before the run adds to it
+                it["carried"] = _leaves(kw["cause"].patch)
+            except Exception as e:  # noqa: BLE001
+                it["carried"] = ["error:" + repr(e)]
             if len(inst["iters"]) >= 2000 and inst["iters"][-2000]["t0"] == it["t0"]:
                 inst["spin"] = True     # 2000 runs within one instant: stop observing a loop that never suspends
                 raise RuntimeError("C10 probe: the timer loop runs without ever suspending")
@@ -574,8 +646,19 @@ class Probe:
                 return await orig_pac(**kw)
             it["p0"] = now()
             it["patch"] = bool(kw["patch"])
-            out = await orig_pac(**kw)
+            it["handed"] = _leaves(kw["patch"])
+            it["handed_fns"] = len(kw["patch"].fns)
+            try:
+                out = await orig_pac(**kw)
+            except asyncio.CancelledError:
+                raise
+            except BaseException as e:  # noqa: BLE001  (the instant the patch gave up, and with what)
+                it["p1"] = now()
+                it["perr"] = type(e).__name__
+                raise
             it["p1"] = now()
+            rem = out[1] if isinstance(out, tuple) and len(out) == 2 else None
+            it["handed_back"] = _leaves(rem) if rem is not None else []
             return out
 
         def irt_get(self: Any) -> float:
@@ -620,6 +703,21 @@ class Probe:
         for i in self.instances:
             insts.append({k: v for k, v in i.items() if k not in ("busy",)})
         return {"instances": insts, "writes": self.writes, "events": self.events, "detects": self.detects}
+
+
+def _leaves(d: Any, prefix: str = "") -> list[str]:
+    """the merge-patch content of a patch as sorted `path=value` strings"""
+    out: list[str] = []
+    if isinstance(d, dict) and not d and not prefix:
+        return []       # an empty patch
+    if isinstance(d, dict) and d:
+        for k in sorted(d, key=str):
+            out += _leaves(d[k], f"{prefix}/{k}")
+        return out
+    try:
+        return [f"{prefix}={json.dumps(d, sort_keys=True, default=repr)}"]
+    except Exception:  # noqa: BLE001
+        return [f"{prefix}={d!r}"]
 
 
 def _essence(body: dict) -> Any:
@@ -885,9 +983,18 @@ def gen_scenario(rng: Any, seed: int, combo: int) -> dict:
         # (settings.networking.error_backoffs = 1, 1, 2 s in the harness: the patch takes seconds), 4+ exhaust it
         ns = [a[1]["n"] for t in timers for a in (x[2] if isinstance(x, list) and x[0] == "sleep" else x for x in t["script"])
               if isinstance(a, list) and a[0] == "ok" and len(a) > 1 and a[1].get("n")]
-        if ns:
+        if ns and rng.random() < 0.5:
             sc["faults"] = [{"match": {"method": "PATCH", "payload_contains": f"'n': {rng.choice(ns)}" + "}"},
                              "fault": ["status", rng.choice([500, 503])], "times": rng.choice([1, 1, 2, 3, 4, 9])}]
+        elif ns:
+            # an outage: every PATCH that carries a result of the first timer fails from some instant on, N times — errors the
+            # client retries (5xx, 403, connection lost before / after the server applied it) and one raised at once (422);
+            # the undelivered patch is carried from run to run and grows (b8b3089)
+            timers[0]["default"] = ["ok", {"n": 0}]      # results (hence PATCHes) after the script's end too
+            timers[0]["opts"].setdefault("interval", rng.choice(INTERVALS))     # … and runs to deliver them
+            sc["faults"] = [{"match": {"method": "PATCH", "payload_contains": "'t1': {", "after": rng.randrange(int(1.5 * TPS), int(4 * TPS)) / TPS},
+                             "fault": rng.choice([["status", 500], ["status", 503], ["conn-before"], ["conn-after"], ["status", 403], ["status", 422]]),
+                             "times": rng.choice([1, 2, 4, 5, 8, 13, 40])}]
     sc["timeline"] = sorted(timeline, key=lambda e: e[0])
     sc["end"] = end
     return sc
@@ -982,7 +1089,7 @@ def oracle(ctx: Ctx, sc: dict, tr: dict, stats: dict | None = None) -> None:
         if not how.startswith("error") or i["id"] not in cfgs:
             continue
         last = i["iters"][-1] if i["iters"] else None
-        in_patch = last is not None and last.get("p0") is not None and last.get("p1") is None
+        in_patch = last is not None and last.get("p0") is not None and (last.get("p1") is None or last.get("perr") == how[6:])
         what = (f"timer {i['id']}: the task ended at {i['exit']} with {how[6:]}"
                 + (" raised by the post-run patch of the run started at " + str(last["t0"]) if in_patch else "")
                 + (": no run will ever follow in this operator process" if i.get("stop_reason") in (None, "None") else ""))
@@ -1044,8 +1151,8 @@ def oracle(ctx: Ctx, sc: dict, tr: dict, stats: dict | None = None) -> None:
             """Why a run at `t` may be later than its schedule: "idle" — it is within (not beyond) the idle time after an
             ESSENTIAL change the operator had seen by then (the reset is stamped between the start and the end of that
             change's processing cycle); "f3" — only an event that is NOT an essential change, on an object that differs
-            from what is stored as last handled (or with nothing stored), explains it: kopf resets idling there too
-            (open finding C10-F3); None — nothing the property allows."""
+            from what is stored as last handled (or with nothing stored), explains it: kopf reset idling there too before
+            14876bf (fixed finding C10-F3, kept as a signature of its own); None — nothing the property allows."""
             if cfg["idle"] is None:
                 return None
             if any(c["t0"] <= t <= cyc_end(c) + cfg["idle"] for c in changes):
@@ -1313,9 +1420,13 @@ def abstract(sc: dict, tr: dict) -> list[dict]:
         cj = _cfg_json(cfg)
         last = inst["iters"][-1] if inst["iters"] else None
         patch_raised = str(inst.get("how") or "")[6:] in INFRA_ERRORS and str(inst.get("how") or "").startswith("error:") \
-            and last is not None and last.get("p0") is not None and last.get("p1") is None
-        # an API error raised by the post-run patch ends the task: in the model a truncation of the sequence (`Exit.raised`,
-        # `Sched` is prefix-closed); the ORACLE reports it (open finding C10-F4). Any other exception is a tie failure.
+            and last is not None and last.get("p0") is not None and (last.get("p1") is None or last.get("perr") == str(inst.get("how"))[6:])
+        # a task that ENDS by an API error of its post-run patch (the code before b8b3089; fixed finding C10-F4): the ORACLE
+        # reports it; for the model (`onPatchError`) it is a tie failure of the `carry` item below. Any other exception too.
+        if patch_raised:
+            items.append({"what": "carry", "obs_ok": True, "req": ["C10.carry", True, [], []], "impl": {"carried": [], "goes_on": False},
+                          "inst": {"uid": inst["uid"], "id": inst["id"], "spawn": inst["spawn"], "exit": inst["exit"]},
+                          "shape": {"gap": "carry", "raised": True, "ended-the-task": True}})
         if (str(inst.get("how") or "").startswith("error") and not patch_raised) or inst.get("spin"):
             items.append({"what": "crashed", "inst": {"uid": inst["uid"], "id": inst["id"], "how": inst.get("how"), "spin": inst.get("spin", False),
                                                       "exit": inst["exit"]}})
@@ -1385,6 +1496,17 @@ def abstract(sc: dict, tr: dict) -> list[dict]:
                           "shape": shape, "failed_before": failed_before, "inst": {**who, "k": k}})
             if o and o["final"] and o["exc"]:
                 failed_before = True
+            if nxt is not None and "handed" in it and "carried" in nxt:
+                # what the next iteration's `cause.patch` starts with: everything after a failed delivery, else what was handed back
+                tbl: dict[str, int] = {}
+                handed = sorted(_intern(tbl, x) for x in it["handed"])
+                back = sorted(_intern(tbl, x) for x in it.get("handed_back", []))
+                carried = sorted(_intern(tbl, x) for x in nxt["carried"])
+                raised = it.get("perr") is not None
+                items.append({"what": "carry", "obs_ok": True, "req": ["C10.carry", raised, handed, back],
+                              "impl": {"carried": carried, "goes_on": True}, "inst": {**who, "k": k, "perr": it.get("perr")},
+                              "shape": {"gap": "carry", "raised": raised, "handed": min(len(handed), 3), "back": min(len(back), 2),
+                                        "fns": min(int(it.get("handed_fns") or 0), 2)}})
     return items
 
 
@@ -1455,6 +1577,12 @@ def compare(ctx: Ctx, sc: dict, item: dict, out: Any) -> None:
         return
     if item["what"] == "view":
         ctx.compare("C10 idle_reset_time derived from the event history", item["impl"], m, wh)
+        return
+    if item["what"] == "carry":
+        ctx.count("post-run-patch", ("raised" if item["shape"]["raised"] else "delivered") + ":" +
+                  ("nothing" if not item["req"][2] else "content"))
+        ctx.compare("C10 what the post-run patch leaves for the next iteration", item["impl"],
+                    {"carried": sorted(m["carried"]), "goes_on": m["goes_on"]}, wh)
         return
     if item["what"] == "exit":
         # the model says whether the timer MAY come back; it did come back only if it may
@@ -1536,6 +1664,11 @@ def _evaluate(ctx: Ctx, scenarios: list[dict], results: list[dict], stats: dict,
             if item["what"] == "reset":
                 ctx.case(key=item["shape"], nontrivial=True)
                 ctx.count("idle-reset-decision(last-handled/last-seen vs event)", item["shape"]["lh"] + "/" + item["shape"]["seen"])
+                reqs.append(item["req"])
+                meta.append((sc, item))
+                continue
+            if item["what"] == "carry":
+                ctx.case(key=item["shape"], nontrivial=item["shape"]["raised"] or bool(item["req"][2]))
                 reqs.append(item["req"])
                 meta.append((sc, item))
                 continue
